@@ -14,10 +14,19 @@
    equality ([T comparable], Go's [==]); the comparator is any function
    [A -> A -> bool] (gogu.CompFn[T]).
 
-   Transcribed from the tree AFTER the repair of defect #19
-   (fixes/builder-c03/0001-*.patch: Delete re-sifts with the new length and
-   defers the unlock).  Defect #20 (Delete re-sifts from the root, not from the
-   hole) is pinned by TestHeap_MaxHeap and is therefore mirrored here.
+   Transcribed from the tree AFTER the repairs committed in /repo: defect #19
+   (2bb6c27, fixes/builder-c03/0001-*.patch: Delete re-sifts with the new length
+   and defers the unlock), e3c19ee (Delete: lookup and removal in one critical
+   section), b12388e (Clear: one unconditional truncation), 60f2aea (Merge/Meld
+   copy / detach the inputs under their locks), 2a3ba4d (GetValues returns a
+   copy).  Locks are not modelled here (C01/C02).  Defect #20 (Delete re-sifts
+   from the root, not from the hole) is pinned by TestHeap_MaxHeap and is
+   therefore mirrored here.
+
+   Not modelled: slice CAPACITY and backing-array identity.  Heaps are values;
+   that the Go heaps handed out by Merge/Meld/FromSlice/GetValues share no
+   storage with heaps that stay in use is established by the correspondence
+   check (three live heap variables, see [step]), not by a theorem.
 
    No proofs in this file. *)
 
@@ -124,9 +133,10 @@ Definition peek (h : heap) : res A :=
 
 Definition get_values (h : heap) : list A := data h.
 
-(* if Size() == 0 { return }; data = data[:0] *)
-Definition clear (h : heap) : heap :=
-  if size h =? 0 then h else mkHeap [] (comp h).
+(* h.data = h.data[:0]   (one critical section since fix b12388e; the backing
+   array is kept by Go — capacity is not part of the model, see the aliasing
+   note at Merge) *)
+Definition clear (h : heap) : heap := mkHeap [] (comp h).
 
 (* ---------- Push ----------
    for _, v := range val { data = append(data, v); moveUp(size - 1) }       *)
@@ -260,10 +270,16 @@ Definition from_slice (l : list A) (c : cmp) : res heap :=
   l' <- heapify_slice c l ;; Ok (mkHeap l' c).
 
 (* ---------- Merge / Meld ----------
-   newHeap := NewHeap(h.comp)
-   for i := 0; i < h.size();  i++ { newHeap.Push(h.data[i]) }
-   for i := 0; i < h2.size(); i++ { newHeap.Push(h2.data[i]) }
-   (Meld then: h.data = nil; h2.data = nil)                                  *)
+   Merge:  comp := h.comp; data1 := append([]T(nil), h.data...)      (private copies,
+           data2 := append([]T(nil), h2.data...)                      taken under the read locks)
+           newHeap := NewHeap(comp); newHeap.Push(data1...); newHeap.Push(data2...)
+   Meld:   comp := h.comp; data1 := h.data; h.data = nil; data2 := h2.data; h2.data = nil
+           newHeap := NewHeap(comp); newHeap.Push(data1...); newHeap.Push(data2...)
+   Heaps are VALUES here: the result shares nothing with the inputs.  That the Go
+   result shares no backing array with either input (spare capacity!) is NOT a
+   theorem about this model; it is what the correspondence check establishes by
+   keeping the receiver (h2 below), the argument (h1) and the result (h0) all
+   alive and observing all three after further operations.                    *)
 Definition new_heap (c : cmp) : heap := mkHeap [] c.
 
 Definition merge (h h2 : heap) : res heap :=
@@ -292,7 +308,10 @@ Definition sort (l : list A) (c : cmp) : res (list A) :=
   l' <- heapify_slice c l ;;
   sort_loop c (length l' - 1) l'.
 
-(* ---------- histories: two heap variables, every exported operation ---------- *)
+(* ---------- histories: three heap variables, every exported operation ----------
+   h0 is the heap every operation acts on, h1 is the argument of Merge/Meld, h2
+   holds the RECEIVER of the last Merge/Meld (so that both inputs and the result
+   stay observable afterwards); OSwap / OSwap2 bring h1 / h2 to the front. *)
 
 Inductive op :=
 | OPush (vs : list A)             (* h0.Push(vs...) *)
@@ -305,9 +324,10 @@ Inductive op :=
 | OIsEmpty                        (* h0.IsEmpty() *)
 | OGetValues                      (* h0.GetValues() *)
 | OFromSlice (c : cmp) (l : list A)   (* h0 = FromSlice(l, c) *)
-| OMerge                          (* t := h0.Merge(h1); observe h0, h1; h0 = t *)
-| OMeld                           (* t := h0.Meld(h1);  observe h0, h1; h0 = t *)
-| OSwap.                          (* h0, h1 = h1, h0 *)
+| OMerge                          (* t := h0.Merge(h1); observe h0, h1; h2 = h0; h0 = t *)
+| OMeld                           (* t := h0.Meld(h1);  observe h0, h1; h2 = h0; h0 = t *)
+| OSwap                           (* h0, h1 = h1, h0 *)
+| OSwap2.                         (* h0, h2 = h2, h0 *)
 
 Inductive out :=
 | RUnit
@@ -320,36 +340,37 @@ Inductive out :=
 | RPanic
 | ROof.
 
-Definition state := (heap * heap)%type.
+Definition state := (heap * heap * heap)%type.
 
 Definition fail_out {X} (r : res X) : out :=
   match r with Panic => RPanic | _ => ROof end.
 
 Definition step (s : state) (o : op) : state * out :=
-  let (h0, h1) := s in
+  let '(h0, h1, h2) := s in
   match o with
-  | OPush vs => match push h0 vs with Ok h => ((h, h1), RUnit) | r => (s, fail_out r) end
-  | OPop => match pop h0 with Ok (v, h) => ((h, h1), RVal v) | r => (s, fail_out r) end
+  | OPush vs => match push h0 vs with Ok h => ((h, h1, h2), RUnit) | r => (s, fail_out r) end
+  | OPop => match pop h0 with Ok (v, h) => ((h, h1, h2), RVal v) | r => (s, fail_out r) end
   | OPeek => match peek h0 with Ok v => (s, RVal v) | r => (s, fail_out r) end
-  | OClear => ((clear h0, h1), RUnit)
-  | OConvert c => match convert h0 c with Ok h => ((h, h1), RUnit) | r => (s, fail_out r) end
+  | OClear => ((clear h0, h1, h2), RUnit)
+  | OConvert c => match convert h0 c with Ok h => ((h, h1, h2), RUnit) | r => (s, fail_out r) end
   | ODelete v => match delete h0 v with
-                 | Ok (ok, e, h) => ((h, h1), RDel ok e)
+                 | Ok (ok, e, h) => ((h, h1, h2), RDel ok e)
                  | r => (s, fail_out r)
                  end
   | OSize => (s, RNat (size h0))
   | OIsEmpty => (s, RBool (is_empty h0))
   | OGetValues => (s, RVals (get_values h0))
-  | OFromSlice c l => match from_slice l c with Ok h => ((h, h1), RUnit) | r => (s, fail_out r) end
+  | OFromSlice c l => match from_slice l c with Ok h => ((h, h1, h2), RUnit) | r => (s, fail_out r) end
   | OMerge => match merge h0 h1 with
-              | Ok t => ((t, h1), RTwo (data h0) (data h1))
+              | Ok t => ((t, h1, h0), RTwo (data h0) (data h1))
               | r => (s, fail_out r)
               end
   | OMeld => match meld h0 h1 with
-             | Ok (t, a, b) => ((t, b), RTwo (data a) (data b))
+             | Ok (t, a, b) => ((t, b, a), RTwo (data a) (data b))
              | r => (s, fail_out r)
              end
-  | OSwap => ((h1, h0), RUnit)
+  | OSwap => ((h1, h0, h2), RUnit)
+  | OSwap2 => ((h2, h1, h0), RUnit)
   end.
 
 (* run: the outputs of a history and the final state *)
@@ -382,7 +403,7 @@ Fixpoint drain (fuel : nat) (h : heap) : res (list A * heap) :=
 (* ====================================================================== *)
 
 Record sheap := mkS { ms : list A; sc : cmp }.
-Definition sstate := (sheap * sheap)%type.
+Definition sstate := (sheap * sheap * sheap)%type.
 
 Definition mem (x : A) (l : list A) : bool := existsb (eqb x) l.
 
@@ -407,34 +428,37 @@ Definition extremal (c : cmp) (v : A) (l : list A) : bool :=
 Definition nil_b (l : list A) : bool := match l with [] => true | _ => false end.
 
 Definition spec_step (ord : bool) (s : sstate) (o : op) (r : out) : option sstate :=
-  let (a, b) := s in
+  let '(a, b, d) := s in
   match o, r with
-  | OPush vs, RUnit => Some (mkS (ms a ++ vs) (sc a), b)
+  | OPush vs, RUnit => Some (mkS (ms a ++ vs) (sc a), b, d)
   | OPop, RVal v =>
       if nil_b (ms a) then (if eqb v zero then Some s else None)
       else if mem v (ms a) && (negb ord || extremal (sc a) v (ms a))
-           then Some (mkS (remove1 v (ms a)) (sc a), b) else None
+           then Some (mkS (remove1 v (ms a)) (sc a), b, d) else None
   | OPeek, RVal v =>
       if nil_b (ms a) then (if eqb v zero then Some s else None)
       else if mem v (ms a) && (negb ord || extremal (sc a) v (ms a))
            then Some s else None
-  | OClear, RUnit => Some (mkS [] (sc a), b)
-  | OConvert c, RUnit => Some (mkS (ms a) c, b)
+  | OClear, RUnit => Some (mkS [] (sc a), b, d)
+  | OConvert c, RUnit => Some (mkS (ms a) c, b, d)
   | ODelete v, RDel ok e =>
       if mem v (ms a)
-      then (if ok && (e =? 0)%Z then Some (mkS (remove1 v (ms a)) (sc a), b) else None)
+      then (if ok && (e =? 0)%Z then Some (mkS (remove1 v (ms a)) (sc a), b, d) else None)
       else (if negb ok && negb (e =? 0)%Z then Some s else None)
   | OSize, RNat n => if n =? length (ms a) then Some s else None
   | OIsEmpty, RBool e => if Bool.eqb e (nil_b (ms a)) then Some s else None
   | OGetValues, RVals l => if ms_eqb l (ms a) then Some s else None
-  | OFromSlice c l, RUnit => Some (mkS l c, b)
+  | OFromSlice c l, RUnit => Some (mkS l c, b, d)
   | OMerge, RTwo l0 l1 =>
+      (* both inputs intact; the receiver is kept as the third variable *)
       if ms_eqb l0 (ms a) && ms_eqb l1 (ms b)
-      then Some (mkS (ms a ++ ms b) (sc a), b) else None
+      then Some (mkS (ms a ++ ms b) (sc a), b, a) else None
   | OMeld, RTwo l0 l1 =>
+      (* both inputs emptied (comparators kept) *)
       if nil_b l0 && nil_b l1
-      then Some (mkS (ms a ++ ms b) (sc a), mkS [] (sc b)) else None
-  | OSwap, RUnit => Some (b, a)
+      then Some (mkS (ms a ++ ms b) (sc a), mkS [] (sc b), mkS [] (sc a)) else None
+  | OSwap, RUnit => Some (b, a, d)
+  | OSwap2, RUnit => Some (d, b, a)
   | _, _ => None
   end.
 
@@ -480,6 +504,7 @@ Arguments OFromSlice {A} c l.
 Arguments OMerge {A}.
 Arguments OMeld {A}.
 Arguments OSwap {A}.
+Arguments OSwap2 {A}.
 Arguments RUnit {A}.
 Arguments RVal {A} v.
 Arguments RBool {A} b.
